@@ -154,15 +154,19 @@ class NodalAnalysis(object):
                         raise ValueError('Elt %s has too few nodes' % elt)
                     n1 = self.cg.node_map[elt.node_names[0]]
                     n2 = self.cg.node_map[elt.node_names[1]]
+                    # The current leaving `node` through the component is
+                    # i(v) seen from the first node and -i(-v) seen from
+                    # the second node (sources and initial conditions
+                    # make i an affine function of v).
                     if node == n1:
-                        pass
+                        v = self._unknowns[n1] - self._unknowns[n2]
+                        result += elt.cpt.current_equation(v, self.kind)
                     elif node == n2:
-                        n1, n2 = n2, n1
+                        v = self._unknowns[n2] - self._unknowns[n1]
+                        result += -elt.cpt.current_equation(-v, self.kind)
                     else:
                         raise ValueError(
                             'Component %s does not have node %s' % (elt, node))
-                    result += elt.cpt.current_equation(
-                        self._unknowns[n1] - self._unknowns[n2], self.kind)
                 lhs, rhs = result, expr(0)
 
             equations[node] = (lhs, rhs)
